@@ -424,7 +424,10 @@ impl Plan {
                 let zr = p - r.min(p);
                 zranks.push(zr.saturating_sub(1));
                 zranks.push(zr);
-                r += step;
+                r = match r.checked_add(step) {
+                    Some(v) => v,
+                    None => break,
+                };
             }
             let p = model.select(m - 1).unwrap();
             idx.push(p.saturating_sub(1));
